@@ -783,10 +783,10 @@ pub fn dom_tree_atomic(scenario: &str) -> Outcome {
 // C12 / C14 after DOM edit histories (bounded stand-in material): navigational views agree; keys of attached nodes are
 // non-zero and pairwise distinct
 
-pub const EDIT_SCENARIOS: [&str; 19] = [
+pub const EDIT_SCENARIOS: [&str; 20] = [
     "move_within_parent_before", "move_within_parent_append", "move_between_parents", "remove_then_reinsert",
     "remove_subtree_drop_then_set_attribute", "remove_middle_subtree_drop_then_set_attribute", "replace_child", "append_fragment_like_sequence", "split_text_then_move", "append_new_after_child_with_descendants", "set_attribute_on_element_with_children", "insert_new_before_first_child", "move_forward_within_parent", "move_before_own_next_sibling", "reappend_last_child_with_children", "move_out_of_detached_parent", "views_inside_removed_subtree", "append_child_to_element_with_late_namespace_declaration",
-    "append_after_last_descendant_with_late_namespace_declaration",
+    "append_after_last_descendant_with_late_namespace_declaration", "change_attribute_value_then_append_child",
 ];
 
 pub fn dom_after_edits(scenario: &str, what: &str) -> Outcome {
@@ -955,6 +955,28 @@ pub fn dom_after_edits(scenario: &str, what: &str) -> Outcome {
                     return format!("disagreements: {:?}", bad);
                 }
             }
+            "change_attribute_value_then_append_child" => {
+                // the value of an ATTACHED attribute is replaced (its value items are new), then the childless element gets a
+                // child: everything must stay in pre-order (element, attribute, its value, the new child, the next sibling)
+                let (_, doc2) = xml_dom::XmlDocument::from_raw("<r><a x=\"1\"/><c/></r>").unwrap();
+                let r2 = doc2.document_element().unwrap();
+                let a2 = r2.child_nodes().item(0).unwrap().as_element().unwrap();
+                let x2 = xml_dom::Element::get_attribute_node(&a2, "x").unwrap();
+                x2.set_node_value("2").unwrap();
+                let n2 = doc2.create_element("n").unwrap();
+                a2.append_child(n2.as_node()).unwrap();
+                if what == "preorder" || what == "keys" {
+                    let mut all = vec![];
+                    keys(&doc2.as_node(), &mut all);
+                    let mut bad = vec![];
+                    for w in all.windows(2) {
+                        if w[0].1 == 0 || w[0].1 >= w[1].1 {
+                            bad.push(format!("{}={} is followed by {}={}", w[0].0, w[0].1, w[1].0, w[1].1));
+                        }
+                    }
+                    return format!("disagreements: {:?}", bad);
+                }
+            }
             "insert_new_before_first_child" => {
                 let n = doc.create_element("n").unwrap();
                 r.insert_before(n.as_node(), Some(&a)).unwrap();
@@ -1018,6 +1040,7 @@ pub fn dom_after_edits(scenario: &str, what: &str) -> Outcome {
             "views_inside_removed_subtree" => "a c",
             "append_child_to_element_with_late_namespace_declaration" => "a c d",
             "append_after_last_descendant_with_late_namespace_declaration" => "a c d",
+            "change_attribute_value_then_append_child" => "a c d",
             _ => "a c d #text",
         })
     } else {
